@@ -31,6 +31,8 @@ func main() {
 		os.Exit(cmdCheck(os.Args[2:]))
 	case "dump":
 		os.Exit(cmdDump(os.Args[2:]))
+	case "replay":
+		os.Exit(cmdReplay(os.Args[2:]))
 	default:
 		fmt.Fprintln(os.Stderr, "unknown command", os.Args[1])
 		os.Exit(2)
@@ -153,9 +155,13 @@ func cmdCheck(args []string) int {
 	}
 	res := runProperty(&pc, *repo, *verif, *tier, *update)
 	res.WallS = time.Since(t0).Seconds()
-	os.MkdirAll(filepath.Join(*verif, "evidence"), 0o755)
+	evDir := filepath.Join(*verif, "evidence")
+	if d := os.Getenv("GOVC_EVIDENCE_DIR"); d != "" {
+		evDir = d
+	}
+	os.MkdirAll(evDir, 0o755)
 	out, _ := json.MarshalIndent(res.ev(), "", " ")
-	os.WriteFile(filepath.Join(*verif, "evidence", *prop+".json"), out, 0o644)
+	os.WriteFile(filepath.Join(evDir, *prop+".json"), out, 0o644)
 	for _, l := range res.lines {
 		fmt.Println(l)
 	}
@@ -173,4 +179,54 @@ func sortedSet(m map[string]bool) []string {
 	}
 	sort.Strings(out)
 	return out
+}
+
+// cmdReplay re-runs a replay harness on the real code (or prints the note of an obligation that has no
+// concrete input). Exit 1 when the violation is reproduced / still recorded.
+func cmdReplay(args []string) int {
+	fs := flag.NewFlagSet("replay", flag.ExitOnError)
+	file := fs.String("file", "", "")
+	repo := fs.String("repo", "/repo", "")
+	fs.Parse(args)
+	if r := os.Getenv("GOVC_REPO"); r != "" {
+		*repo = r
+	}
+	raw, err := os.ReadFile(*file)
+	if err != nil {
+		fmt.Fprintln(os.Stderr, err)
+		return 2
+	}
+	text := string(raw)
+	if !strings.HasSuffix(*file, ".go") {
+		fmt.Print(text)
+		fmt.Println("no-failing-input-found: this obligation has no concrete input; the solver output above is the evidence")
+		return 1
+	}
+	var pkgDir string
+	for _, l := range strings.Split(text, "\n") {
+		if strings.HasPrefix(l, "// pkgdir: ") {
+			pkgDir = strings.TrimPrefix(l, "// pkgdir: ")
+		}
+	}
+	if pkgDir == "" {
+		fmt.Fprintln(os.Stderr, "replay file has no pkgdir header")
+		return 2
+	}
+	if i := strings.Index(text, "\n// OBSERVED"); i >= 0 {
+		fmt.Println("recorded at check time:" + text[i:])
+		text = text[:i]
+	}
+	tmpd, _ := os.MkdirTemp("", "govc-replay.")
+	defer os.RemoveAll(tmpd)
+	oc, errs := runHarnessDir(filepath.Join(*repo, pkgDir), text, tmpd)
+	if errs != "" {
+		fmt.Println("harness did not run:", errs)
+		return 2
+	}
+	js, _ := json.Marshal(oc)
+	fmt.Println("observed now on the real code:", string(js))
+	if oc.Panic != "" {
+		fmt.Println("PANIC reproduced:", oc.Panic)
+	}
+	return 1
 }
